@@ -36,10 +36,8 @@ def run(ctx):
     ce = res.clause('C08.e', 'R-AGREE', 'parent/worker channel correlated', floor=1)
     excm = ctx.excm(em.EQ_SCOPE)
     pol = em.EqPolicy(repo, excm)
-    runc = eq.lookup('run_comparison')
-    pac = eq.lookup('_play_and_compare_recording')
-    if runc is None or pac is None:
-        raise AnalysisError('anchor-lost methods run_comparison / _play_and_compare_recording')
+    er = em.EqRoles(repo)
+    runc, pac = er.run, er.pac
 
     # ---------------- C08.a
     class NoInline(em.EqPolicy):
@@ -145,7 +143,7 @@ def run(ctx):
                             'a comparison carries data read from `%s`, a field the equalizer writes elsewhere: when the current recording fails '
                             'early it shows the previous recording\'s data' % norm(x)))
     # the worker call of the iteration receives the loop id
-    wc = [n for n in ast.walk(main) if isinstance(n, ast.Call) and self_attr(n.func) and 'play_and_compare' in n.func.attr]
+    wc = [n for n in ast.walk(main) if isinstance(n, ast.Call) and self_attr(n.func) == er.dispatch.name]
     okw = bool(wc) and all(n.args and isinstance(n.args[0], ast.Name) and n.args[0].id == idvar for n in wc)
     cb.instance('the play-and-compare call of the iteration receives the loop id', runc.qualname, okw)
     if not okw:
@@ -170,9 +168,7 @@ def run(ctx):
         res.add(Finding('C08', 'C08.c', 'R-CONTAIN', pac.file, pac.qualname, pac.node.lineno, 'failure result / status wrapping',
                         'the failure result is not built from the id being played, or a bare status is not wrapped'))
     # worker loop
-    wt = eq.lookup('_playback_process_target')
-    if wt is None:
-        raise AnalysisError('anchor-lost method=_playback_process_target')
+    wt = er.target
     dw = small.analyse(repo, excm, wt, policy=NoInline(repo, excm), domain=em.EqDomain)
     cc.evaluations += dw.visited_pairs
     escw = [(n, s) for n, s in dw.exits if n.info['exit'] != 'return' and n.info['exit'][6:] in excm.ordinary]
@@ -185,7 +181,7 @@ def run(ctx):
     from . import c13
     cfj = res.clause('C08.f', 'R-ABSINT', 'a hung worker fails only its own recording: no unbounded join can block the run', floor=1)
     handle = c13.worker_handle(eq)
-    joins, badj = c13.unbounded_joins(eq, handle, eq.lookup('_create_or_recycle_player_process_if_needed'))
+    joins, badj = c13.unbounded_joins(eq, handle, er.recycle)
     cfj.instance('%d join(s) on the worker handle, none unbounded outside the cooperative recycle path' % len(joins), eq.name, not badj)
     cfj.evaluations += len(joins)
     for m, n in badj:
@@ -204,7 +200,7 @@ def run(ctx):
         res.add(Finding('C08', 'C08.d', 'R-WHOCALLS', pac.file, eq.name, eq.node.lineno, 'callers %s second implementations %s' % (sorted(callers), [m.name for m in impls]),
                         'in-process execution and the dedicated worker do not share one play-and-compare routine'))
     # ---------------- C08.e
-    create = eq.lookup('_create_new_player_process')
+    create = er.create
     qfields = [f for (c, f), t in pol.field_types.items() if c == eq.name and t == ('lib', 'multiprocessing.Queue')]
     if len(qfields) != 2 or create is None:
         raise AnalysisError('anchor-lost role=task/result queues (%s)' % qfields)
